@@ -12,18 +12,24 @@ EXTENDS Storage
 (***************************************************************************)
 NonEmpty(s) == IF Len(s) = 0 THEN <<>> ELSE <<s>>
 BandUsed(m, n, offs) == Cardinality(BandPattern(m, n, {offs[k] : k \in 1..Len(offs)}))
+\* A container without any entry exists in two states: WITHOUT ARRAYS (alloc = FALSE: the dimension-only
+\* constructors, e.g. SparseMatrixCSR(rows, cols), SparseVector(size)) and with ALLOCATED ARRAY SLOTS of length 0
+\* (alloc = TRUE: SparseMatrixCSR(rows, cols, 0) - val and col_ind of length 0, row_ptr of length rows+1 -, the
+\* array constructors with empty arrays, what the MatrixMarket readers produce).  An array of length 0 is still
+\* an array: the number of arrays and their sizes are part of the persisted state.
 Arrays(cc) ==
   LET r == cc.rep IN
   CASE cc.kind \in {"dv", "dvb"} -> [el |-> NonEmpty(r.va), ix |-> <<>>, si |-> <<cc.m>>]
     [] cc.kind \in {"sv", "svb"} ->
-         [el |-> NonEmpty(r.va), ix |-> NonEmpty(r.idx), si |-> <<cc.m, Len(r.idx), Len(r.idx), Min(cc.m, 1000), 1>>]
+         [el |-> IF cc.alloc THEN <<r.va>> ELSE NonEmpty(r.va), ix |-> IF cc.alloc THEN <<r.idx>> ELSE NonEmpty(r.idx),
+          si |-> <<cc.m, Len(r.idx), Len(r.idx), Min(cc.m, 1000), 1>>]
     [] cc.kind = "dm"     -> [el |-> <<r.va>>, ix |-> <<>>, si |-> <<cc.m * cc.n, cc.m, cc.n>>]
-    [] cc.kind = "csr"    -> IF Len(r.ci) = 0 THEN [el |-> <<>>, ix |-> <<>>, si |-> <<cc.m * cc.n, cc.m, cc.n, 0>>]
+    [] cc.kind = "csr"    -> IF Len(r.ci) = 0 /\ ~cc.alloc THEN [el |-> <<>>, ix |-> <<>>, si |-> <<cc.m * cc.n, cc.m, cc.n, 0>>]
                              ELSE [el |-> <<r.va>>, ix |-> <<r.ci, r.rp>>, si |-> <<cc.m * cc.n, cc.m, cc.n, Len(r.ci)>>]
-    [] cc.kind = "bcsr"   -> IF Len(r.ci) = 0 THEN [el |-> <<>>, ix |-> <<>>, si |-> <<cc.m * cc.n, cc.m, cc.n, 0>>]
+    [] cc.kind = "bcsr"   -> IF Len(r.ci) = 0 /\ ~cc.alloc THEN [el |-> <<>>, ix |-> <<>>, si |-> <<cc.m * cc.n, cc.m, cc.n, 0>>]
                              ELSE [el |-> <<Flatten([k \in 1..Len(r.va) |-> Flatten(r.va[k])])>>, ix |-> <<r.ci, r.rp>>,
                                    si |-> <<cc.m * cc.n, cc.m, cc.n, Len(r.ci)>>]
-    [] cc.kind = "cscr"   -> IF Len(r.ci) = 0 THEN [el |-> <<>>, ix |-> <<>>, si |-> <<cc.m * cc.n, cc.m, cc.n, 0, 0>>]
+    [] cc.kind = "cscr"   -> IF Len(r.ci) = 0 /\ ~cc.alloc THEN [el |-> <<>>, ix |-> <<>>, si |-> <<cc.m * cc.n, cc.m, cc.n, 0, 0>>]
                              ELSE [el |-> <<r.va>>, ix |-> <<r.ci, r.rp, r.rn>>, si |-> <<cc.m * cc.n, cc.m, cc.n, Len(r.ci), Len(r.rn)>>]
     [] cc.kind = "banded" -> [el |-> <<r.va>>, ix |-> <<r.offs>>, si |-> <<cc.m * cc.n, cc.m, cc.n, BandUsed(cc.m, cc.n, r.offs), Len(r.offs)>>]
 
